@@ -103,7 +103,8 @@ class St:
             return self._extra[name]
         if name in self._env:
             return self._deref(self._env[name])
-        raise AttributeError("no program variable %r in state" % name)
+        raise Unsupported("the contract refers to program variable %r, which does not exist in this state "
+                          "(renamed or removed in the source?)" % name)
 
     def has(self, name):
         return name in self._env or name in self._extra
@@ -114,6 +115,10 @@ class St:
 
     def g(self, name):
         return self._ghost[name]
+
+    def loop(self, j):
+        """iteration ghosts ($proc, $i, $S, $x) of (enclosing) loop j"""
+        return self._extra["$loops"][j]
 
 
 class Ctx:
@@ -248,7 +253,7 @@ class Ctx:
 
 
 def _as_term(v):
-    if isinstance(v, (VInt, VBool, VStr, VElem, VSet)):
+    if isinstance(v, (VInt, VBool, VStr, VElem, VSet, VCount)):
         return v.t
     raise Unsupported("value %r has no single term" % (v,))
 
